@@ -12,7 +12,8 @@
 // comparison against the model's byte map with fresh page-boundary markers written in every state.
 //
 // Every configuration runs in its own child process (crash containment; multi-GiB buffers are never
-// recycled by the Go heap inside one process and stay virtual). At most 4 multi-GiB cases run at a time.
+// recycled by the Go heap inside one process and stay virtual). Pairs of runtimes with different limits that share a
+// CompilationCache are explored as well (Config.Prime).
 package main
 
 import (
@@ -330,6 +331,9 @@ func main() {
 		if c.Huge() {
 			cl = "multi-GiB"
 		}
+		if c.Prime != nil {
+			cl = "cache-pair"
+		}
 		perClass["cases:"+cl]++
 		perClass["states:"+cl] += res.States
 		perClass["transitions:"+cl] += res.Transitions
@@ -365,6 +369,10 @@ func main() {
 	}
 	flush(&rejectedQ, 24, true)
 	flush(&plainQ, 6, true)
+	// longest first: multi-GiB singletons, then the batches in enumeration order (stable)
+	sort.SliceStable(batches, func(a, b int) bool {
+		return cfgs[batches[a][0]].Huge() && !cfgs[batches[b][0]].Huge()
+	})
 	hugeQ := make(chan []int, len(heavy))
 	for _, i := range heavy {
 		hugeQ <- []int{i}
